@@ -10,7 +10,7 @@ NOT_APPLICABLE["C03"] = ("relation between an arbitrary dynamic call tree and an
                          "evolution of handler collections and accumulator forks; no sound static abstraction in reach bounds embeddings")
 NOT_APPLICABLE["C07"] = ("quantifies over call trees and runtime data flow through Total accumulator forks; its only structural clause "
                          "(exit hook on every way out) is decided under C06 rule R06.1")
-SOURCE_COMMITS = ["746fd1a fix: undo the instrumentation counts when the new variant cannot be installed", "798314f fix: untool the functions of a selector that autotool ends up refusing", "f8603ba fix: roll back the tooling of earlier selectors when a later one is refused", "e29e1a9 fix: mark the cached instrumented variants as helper functions", "ceee686 fix: match the receiver of a bound-method selector by identity", "f362961 fix: serialize instrumentation changes between threads", "3d31492 fix: do not rewrite the bodies of nested classes, lambdas and async functions", "744a5c2 fix: rewrite the right-hand side of assignments too", "2a0cb7a fix: collect the names bound in except bodies and by match patterns", "466fe4b fix: report the name bound by a dotted import", "c1855a8 fix: do not bind the ABSENT marker to variables that are not instrumented"]
+SOURCE_COMMITS = ["746fd1a fix: undo the instrumentation counts when the new variant cannot be installed", "798314f fix: untool the functions of a selector that autotool ends up refusing", "f8603ba fix: roll back the tooling of earlier selectors when a later one is refused", "e29e1a9 fix: mark the cached instrumented variants as helper functions", "ceee686 fix: match the receiver of a bound-method selector by identity", "f362961 fix: serialize instrumentation changes between threads", "3d31492 fix: do not rewrite the bodies of nested classes, lambdas and async functions", "744a5c2 fix: rewrite the right-hand side of assignments too", "2a0cb7a fix: collect the names bound in except bodies and by match patterns", "466fe4b fix: report the name bound by a dotted import", "c1855a8 fix: do not bind the ABSENT marker to variables that are not instrumented", "40ebacf fix: report malformed selectors as syntax or selector errors", "26f5533 fix: refuse bound methods without a named receiver with a selector error"]
 
 claim("C12", "P", "AST normal-form comparison tables + wrapper-guard agreement (syntactic dataflow)",
       "Decides structural clauses only: each stock comparison predicate is the single comparison its name states (holds for all "
@@ -113,3 +113,10 @@ claim("C11", "T+P", "decision-table extraction (path enumeration over tag kinds)
       "other bindings None), that one predicate decides instrumentation, delivery, fitting and verification, and the set algebra of tag sets. Which variables a user function tags is runtime (eval of annotations).",
       "Trusted: engine T base (see C01). Shares the keyed-target naming finding with C02.",
       "DESIGN.md section 6, C11")
+
+claim("C18", "P", "exception-escape analysis over the resolved call graph (assert / raise / raising external calls / unguarded index and unpack sites reachable from parse, select, Probe()), flow-sensitive operand-kind analysis of the evaluation actions, refusal-path rules, loop variants",
+      "Decides for every input string at once that no internal error class can escape the selector front end: each reachable assert, undocumented raise, raising external call and index/unpack site is absent, "
+      "caught, locally guarded, or carries a one-line infeasibility reason; every attribute used on an evaluated operand exists on all operand kinds still possible at that point; the documented refusals are on "
+      "the construction / activation path. Termination is argued by loop variants only.",
+      "Trusted: callee resolution (statistics in the evidence); external calls outside EXTERNAL_RAISES do not raise on selector input; exceptions from user functions inside selector values are out of scope.",
+      "DESIGN.md section 6, C18")
